@@ -122,11 +122,20 @@ def create_warning(
         from sphinx.util.logging import getLogger
 
         logger = getLogger(__name__)
+        location: nodes.Element | str | tuple[str, int | None]
+        if node is not None:
+            location = node
+        elif line is not None:
+            # a (name, line) tuple is read by Sphinx as a *docname*, to which it
+            # appends a source suffix: give the path and line as they are
+            location = f"{document['source']}:{line}"
+        else:
+            location = (document["source"], line)
         logger.warning(
             message,
             type=type_str,
             subtype=subtype_str,
-            location=node if node is not None else (document["source"], line),
+            location=location,
         )
         if _is_suppressed_warning(
             type_str, subtype_str, document.settings.env.config.suppress_warnings
